@@ -22,6 +22,8 @@ LEVEL = 'exploration'
 BUDGET = {'quick': 45, 'thorough': 420}
 # deterministic sub-checks repeated in a `python -O` child (core.optimized_child)
 OPT_SUBS = ('fs', 'errno', 'last_bytes/family', 'tempfile/family')
+# documented call interface the generated calls rely on (vcheck/callstyle.py)
+INTERFACE = [('oslo_utils.fileutils', ['ensure_tree', 'delete_if_exists', 'write_to_tempfile', 'compute_file_checksum', 'last_bytes'])]
 RULE = ('checksum: sizes {0,1,c-1,c,c+1,2c-1,2c,2c+1,3c} x chunk sizes c in '
         '{1,2,7,64,4096,65536, larger than the file, default} x 6 algorithms '
         'enumerated, plus random (size, chunk, algorithm); last_bytes: sizes '
@@ -142,6 +144,57 @@ def oracle_checksum(col, case, nm, sub='checksum', path=None, data=None):
     finally:
         if own:
             os.unlink(path)
+
+
+def checksum_special(col):
+    """Files whose stat size says nothing about their content: procfs
+    entries (st_size 0) and a FIFO fed by a writer thread."""
+    import threading
+    from oslo_utils import fileutils
+    sub = 'checksum/special'
+    for path in ('/proc/version', '/proc/filesystems', '/proc/cpuinfo'):
+        try:
+            with open(path, 'rb') as f:
+                data = f.read()
+            with open(path, 'rb') as f:
+                again = f.read()
+        except OSError:
+            continue
+        if not data or data != again:
+            continue            # not stable enough to serve as an oracle
+        for chunk in (7, 4096, None):
+            case = {'special': path, 'chunk': chunk}
+            kw = {} if chunk is None else {'read_chunksize': chunk}
+            got = fileutils.compute_file_checksum(path, **kw)
+            col.case(sub, (path, chunk), True, 'procfs', case)
+            if got != hashlib.sha256(data).hexdigest():
+                _bad(sub, 'compute_file_checksum(%r, %r) is not the digest '
+                     'of its %d bytes of content (st_size %d)'
+                     % (path, kw, len(data), os.stat(path).st_size), case)
+    with scratch_dir() as root:
+        for k, size in enumerate((0, 1, 70000)):
+            fifo = os.path.join(root, 'fifo%d' % k)
+            os.mkfifo(fifo)
+            data = blob(k + 1, size)
+
+            def feed():
+                with open(fifo, 'wb') as w:
+                    for i in range(0, len(data), 5000):
+                        w.write(data[i:i + 5000])
+
+            th = threading.Thread(target=feed)
+            th.start()
+            case = {'special': 'fifo', 'size': size}
+            try:
+                got = fileutils.compute_file_checksum(fifo,
+                                                      read_chunksize=4096)
+            finally:
+                th.join()
+            col.case(sub, ('fifo', size), True, 'fifo', case)
+            if got != hashlib.sha256(data).hexdigest():
+                _bad(sub, 'checksum of %d bytes read from a FIFO is not '
+                     'their digest' % size, case)
+    col.exhaustive.setdefault(sub, False)
 
 
 def checksum_family(col, chunks):
@@ -645,20 +698,35 @@ def all_errnos():
     return sorted(errno.errorcode) + [None, 0, -1, 99999]
 
 
-def _make_exc(e):
+class DriverError(OSError):
+    """an OSError subclass of some driver or wrapper (not one of the
+    interpreter's errno-mapped classes)"""
+
+
+def _make_exc(e, flavour=None):
+    """flavour None: OSError(errno, msg), which the interpreter maps onto
+    FileNotFoundError / FileExistsError / ...; 'subclass': the same errno on
+    a foreign OSError subclass; 'late': errno assigned after construction
+    (a wrapper re-raising); both keep the class away from the mapped one."""
     if e is None:
         return OSError('injected without errno')
     try:
         msg = os.strerror(e)
     except (ValueError, OverflowError):
         msg = 'injected'
+    if flavour == 'subclass':
+        return DriverError(e, msg)
+    if flavour == 'late':
+        x = OSError(msg)
+        x.errno = e
+        return x
     return OSError(e, msg)
 
 
 def oracle_errno(col, case, nm, sub='errno'):
     from oslo_utils import fileutils
     target, e, state = case['target'], case['errno'], case.get('state')
-    exc = _make_exc(e)
+    exc = _make_exc(e, case.get('flavour'))
     name = errno.errorcode.get(e, str(e))
     base = nm.dir('x')
     calls = []
@@ -674,6 +742,14 @@ def oracle_errno(col, case, nm, sub='errno'):
 
         def fake(*a, **kw):
             calls.append(a)
+            if case.get('competitor'):
+                # somebody else gets there first: by the time the error is
+                # raised the work has been done by another process
+                if target == 'remove':
+                    if os.path.lexists(a[0]):
+                        os.unlink(a[0])
+                elif not os.path.lexists(a[0]):
+                    saved(a[0])
             raise exc
 
         interesting = e in (errno.EEXIST, errno.ENOENT, errno.EINVAL,
@@ -705,6 +781,8 @@ def oracle_errno(col, case, nm, sub='errno'):
             if len(calls) != 1 or calls[0] != (path,):
                 _bad(sub, 'remove callable called with %r' % (calls,), case)
             swallow = e == errno.ENOENT
+        elif case.get('competitor'):
+            swallow = e == errno.EEXIST and state in ('dir', 'missing')
         else:
             swallow = e == errno.EEXIST and state == 'dir'
         if swallow:
@@ -746,7 +824,70 @@ def errno_family(col, target):
                         continue
                     oracle_errno(col, {'target': target, 'errno': e,
                                        'state': state}, nm, sub)
+        # the errnos the filters look at, on exception objects of other
+        # classes, and with a competitor doing the work in the meantime
+        for e in (errno.ENOENT, errno.EEXIST, errno.EACCES, errno.ENOTDIR):
+            for flavour in (None, 'subclass', 'late'):
+                for comp in (False, True):
+                    if flavour is None and not comp:
+                        continue
+                    states = ('file', 'missing') if target == 'remove' \
+                        else ('dir', 'missing')
+                    for state in states:
+                        oracle_errno(col, {'target': target, 'errno': e,
+                                           'state': state, 'flavour': flavour,
+                                           'competitor': comp}, nm, sub)
     col.exhaustive[sub] = True
+
+
+def concurrent_ensure(col, nthreads, rounds):
+    """Schedules: several threads ensure the same new tree (directly and
+    through write_to_tempfile) at the same moment; all must succeed."""
+    import sys
+    import threading
+    from oslo_utils import fileutils
+    sub = 'ensure/concurrent'
+    saved = sys.getswitchinterval()
+    sys.setswitchinterval(1e-6)
+    try:
+        with scratch_dir() as root:
+            for r in range(rounds):
+                path = os.path.join(root, 'r%d' % r, 'a', 'b', 'c')
+                barrier = threading.Barrier(nthreads)
+                errs = [None] * nthreads
+                use_tmp = bool(r % 2)
+
+                def work(i):
+                    barrier.wait()
+                    try:
+                        if use_tmp:
+                            p = fileutils.write_to_tempfile(
+                                b'data%d' % i, path=path)
+                            with open(p, 'rb') as f:
+                                if f.read() != b'data%d' % i:
+                                    errs[i] = 'wrong content'
+                        else:
+                            fileutils.ensure_tree(path)
+                    except BaseException as e:
+                        errs[i] = repr(e)
+
+                ths = [threading.Thread(target=work, args=(i,))
+                       for i in range(nthreads)]
+                for t in ths:
+                    t.start()
+                for t in ths:
+                    t.join()
+                case = {'concurrent_ensure': nthreads, 'round': r,
+                        'via': 'write_to_tempfile' if use_tmp
+                        else 'ensure_tree'}
+                col.case(sub, (r,), True, 'via/' + case['via'], case)
+                bad = [e for e in errs if e]
+                if bad or not os.path.isdir(path):
+                    _bad(sub, '%d threads creating the same new tree via %s: '
+                         '%r' % (nthreads, case['via'], bad[:3]), case)
+    finally:
+        sys.setswitchinterval(saved)
+    col.exhaustive.setdefault(sub, False)
 
 
 # -- entry points ---------------------------------------------------------------------------------
@@ -765,6 +906,9 @@ def tasks(tier, seed):
     out.append(Task('checksum/concurrent', concurrent_checksums, nthreads=6,
                     rounds=3 if tier == 'quick' else 20))
     out.append(Task('fs', fs_family))
+    out.append(Task('ensure/concurrent', concurrent_ensure, nthreads=8,
+                    rounds=30 if tier == 'quick' else 300))
+    out.append(Task('checksum/special', checksum_special))
     for target in ('makedirs', 'tempfile', 'remove'):
         out.append(Task('errno', errno_family, target=target))
     for i in range(shards):
@@ -786,6 +930,11 @@ def replay(rec):
     col = core.Collector()
     if case.get('concurrent'):
         return concurrent_checksums(col, case['threads'], case['rounds'])
+    if case.get('concurrent_ensure'):
+        return concurrent_ensure(col, case['concurrent_ensure'],
+                                 case['round'] + 1)
+    if case.get('special'):
+        return checksum_special(col)
     with scratch_dir() as root:
         nm = Namer(root)
         if 'chunk' in case:
